@@ -43,7 +43,11 @@ Md5 == F("./md5sums", "file", <<97, 98, 99, 32, 32, 120, 10>>)
 Post == F("./postinst", "file", <<35, 33, 47, 98, 105, 110, 47, 115, 104, 10>>)
 CtlF(name) == F(name, "control", <<>>)
 Dir == F("./", "dir", <<>>)
-CtlLayouts == { <<Dir, CtlF("./control"), Md5>>, <<Dir, Md5, CtlF("./control"), Post>>, <<Md5, Post, CtlF("./control")>>,
+\* a file whose LAST path component is "control" (a trigger script's directory, say) is not the control file
+decoyText == <<80, 97, 99, 107, 97, 103, 101, 58, 32, 100, 101, 99, 111, 121, 10, 86, 101, 114, 115, 105, 111, 110, 58, 32, 57, 10,
+               65, 114, 99, 104, 105, 116, 101, 99, 116, 117, 114, 101, 58, 32, 97, 108, 108, 10>>      \* "Package: decoy\nVersion: 9\nArchitecture: all\n"
+CtlLayouts == { <<Dir, F("./triggers.d/control", "file", decoyText), CtlF("./control"), Md5>>, <<F("./x/control", "file", decoyText), CtlF("control")>>,
+                <<Dir, CtlF("./control"), Md5>>, <<Dir, Md5, CtlF("./control"), Post>>, <<Md5, Post, CtlF("./control")>>,
                 <<CtlF("control")>>, <<Md5, CtlF("./x/../control")>> }
 DataFile(n) == F("./usr/f" \o ToString(n), "file", [k \in 1..(n * 3) |-> 96 + n])
 DataLayouts == { <<>>, <<DataFile(1)>>, <<DataFile(2), DataFile(1)>>, <<DataFile(1), DataFile(2), DataFile(3)>> }
@@ -87,7 +91,9 @@ FillK(name, b, k) == F(name, "fillk", <<b, k>>)
 LongDesc == <<115, 104, 111, 114, 116>> \o Concat([i \in 1..12 |-> <<10, 32>> \o [j \in 1..60 |-> 97 + ((i + j) % 26)]])       \* "short" + 12 lines of 60 letters
 FieldsLong(pkg) == [i \in 1..Len(Fields(pkg, FALSE)) |-> IF Fields(pkg, FALSE)[i][1] = bDesc THEN <<bDesc, LongDesc>> ELSE Fields(pkg, FALSE)[i]]
 Straddle == {Vec(<<Bin(V20), Ctl(c, <<Dir, FillK("./md5sums", 97, k), CtlF("./control")>>, FieldsLong(PkgA)), StdDat("gz")>>) : c \in {"gz", "", "xz"}, k \in 57..63}
-C14Vecs == Large \cup Straddle \cup Combos \cup Layouts \cup Versions \cup Missing \cup Orders \cup Ambiguous
+Near == {Vec(<<Bin(V20), StdCtl("gz"), StdDat("gz"), x>>) : x \in {[Ctl("gz", <<CtlF("./control")>>, Fields(PkgDecoy, FALSE)) EXCEPT !.role = "extra-ctl", !.name = "control_.tar.gz"],
+                                                                    [Dat("gz", <<DataFile(3)>>) EXCEPT !.role = "extra-dat", !.name = "data_.tar.gz"]}}
+C14Vecs == Near \cup Large \cup Straddle \cup Combos \cup Layouts \cup Versions \cup Missing \cup Orders \cup Ambiguous
 
 \* ---- C16 ------------------------------------------------------------------
 Roles == {"origin", "maint", "archive"}
@@ -144,7 +150,13 @@ SigBare == {SVec(<<Bin(V20), Forged("gz"), StdDat("gz"), Sig("origin", "k1", <<1
 \* "_gpg" + a 12-character role = a member name of exactly 16 bytes: the role asked for must be that very name
 LongRole == "origin-2026a"
 SigLongRole == {SVec(Signed("gz", LongRole, "k1"), ask, <<"k1">>, NoTamper, <<1, 2, 3>>) : ask \in {LongRole, "origin-2026", "origin-2026ab", "origin"}}
-C16Vecs == SigLongRole \cup SigBasic \cup SigFlips \cup SigMore \cup SigMulti \cup SigDecoys \cup SigWrong \cup SigBare
+\* tarballs that look like a control / data member under names the loader must not take for one ("control_.tar.gz",
+\* "data_.tar.gz", "controlx.tar"): the package stays well-formed, loads its own members and verifies
+ExtraCtl(nm) == [Ctl("gz", <<CtlF("./control")>>, Fields(PkgDecoy, FALSE)) EXCEPT !.role = "extra-ctl", !.name = nm]
+ExtraDat(nm) == [Dat("gz", <<DataFile(3)>>) EXCEPT !.role = "extra-dat", !.name = nm]
+SigNear == {SVec(Signed("gz", "origin", "k1") \o <<x>>, "origin", <<"k1">>, NoTamper, <<1, 2, 3>>) :
+               x \in {ExtraCtl("control_.tar.gz"), ExtraCtl("controlx.tar.gz"), ExtraDat("data_.tar.gz"), ExtraDat("datax.tar.gz"), ExtraCtl("contro.tar.gz")}}
+C16Vecs == SigNear \cup SigLongRole \cup SigBasic \cup SigFlips \cup SigMore \cup SigMulti \cup SigDecoys \cup SigWrong \cup SigBare
 
 \* ---- several loaded packages alive in one process -----------------------------------------------------
 \* three signed packages with different names and payloads; handle h holds package PkgOfHandle[h].
